@@ -437,3 +437,20 @@ PLANS = {
                 workloads=lambda tier, seed: [("statsync", [gen.gen_stats_sync(seed * 1000 + 30 + i, idbase=(970 + i) * IDSTEP, rounds=12 if tier == "quick" else 60, name="statsync_%d" % i)
                                                             for i in range(3 if tier == "quick" else 12)], dict(per_tlc=1, tlc_jobs=4))] + wl_core(tier, seed), assumptions=COMMON_ASSUME),
 }
+
+
+def _with_mix(pid, orig):
+    """every check also runs a few histories of the all-features generator (gen_mix) - with seeds of its own,
+    so that the 18 checks together explore 18 times as many of them - and reports the conjuncts attributed to it"""
+    idx = int(pid[1:])
+
+    def wl(tier, seed):
+        cnt, nops = (4, 220) if tier == "quick" else (40, 600)
+        mix = [gen.gen_mix(seed * 100000 + idx * 1000 + i, idbase=(1500 + i) * IDSTEP, nops=nops, name="mix_%d" % i) for i in range(cnt)]
+        return orig(tier, seed) + [("mix", mix, dict(per_tlc=1 if tier == "quick" else 5, tlc_jobs=4 if tier == "quick" else 8, max_slots=300))]
+    return wl
+
+
+for _pid in list(PLANS):
+    PLANS[_pid]["workloads"] = _with_mix(_pid, PLANS[_pid]["workloads"])
+
